@@ -315,9 +315,36 @@ pub fn run(ctx: &mut Ctx, c13: bool) {
         code: String,
         root: String,
         tree: Option<Tree>,
+        giant: bool,
     }
     let mut progs: Vec<Prog> = vec![];
-    for i in 0..n {
+    // fixed programs at size thresholds, after the random ones (impl-only for the giant one: its
+    // documents are not given to Coq)
+    let fixed: Vec<(Vec<Vec<Node>>, bool)> = {
+        let e = |n: &str, a: &[&str], kids: Vec<Node>| Node::Elem { name: n.to_string(), empty: kids.is_empty(), attrs: a.iter().map(|x| x.to_string()).collect(), kids };
+        let many = |n: usize, twice: bool| {
+            let mut kids: Vec<Node> = (0..n).map(|i| e(&format!("c{}", i), &[], vec![Node::Text])).collect();
+            kids.push(e("entry", &["a"], vec![]));
+            if twice {
+                kids.push(e("entry", &["a"], vec![]));
+            }
+            vec![e("record", &[], kids)]
+        };
+        let rows = |n: usize, last_differs: bool| {
+            let mut kids: Vec<Node> = (0..n).map(|_| e("row", &["id"], vec![e("price", &[], vec![Node::Text])])).collect();
+            if last_differs {
+                kids.push(e("row", &["id", "discontinued"], vec![e("name", &[], vec![Node::Text])]));
+            }
+            vec![e("export", &[], kids)]
+        };
+        let mut v = vec![(vec![many(70, true), many(70, false)], false), (vec![many(129, true)], false), (vec![rows(256, true), rows(3, false)], false)];
+        if ctx.thorough {
+            v.push((vec![rows(12000, true)], true));
+        }
+        v
+    };
+    let n_fixed = fixed.len();
+    for i in 0..n + n_fixed {
         let rp;
         let (names, attrs): (Vec<String>, Vec<String>) = if i % 5 == 4 {
             rp = crate::docprops::rand_pool(&mut rng);
@@ -345,13 +372,19 @@ pub fn run(ctx: &mut Ctx, c13: bool) {
         g.p_misc = 40;
         let k = rng.range(1, 3);
         let root = names[rng.below(names.len().min(2))].clone();
-        let doms: Vec<Vec<Node>> = (0..k)
+        let mut doms: Vec<Vec<Node>> = (0..k)
             .map(|_| {
                 let mut d = gen_doc(&mut rng, &g, &root);
                 d.retain(|x| !matches!(x, Node::Text));
                 d
             })
             .collect();
+        let mut giant = false;
+        if i >= n {
+            doms = fixed[i - n].0.clone();
+            giant = fixed[i - n].1;
+            hist.add("fixed-size-class-program");
+        }
         let mut docs: Vec<Doc> = doms
             .iter()
             .map(|d| {
@@ -370,7 +403,8 @@ pub fn run(ctx: &mut Ctx, c13: bool) {
             }
         }
         let opts = base_opts.clone().sorted(rng.chance(1, 4));
-        let b = build_case(None, &bytes, &RCfg::default(), &[opts.clone()], &mut sh.intern, vec![("kind", json::s("program")), ("program", J::N(i as i64))]);
+        let mut scratch = crate::emit::Interner::default();
+        let b = build_case(None, &bytes, &RCfg::default(), &[opts.clone()], if giant { &mut scratch } else { &mut sh.intern }, vec![("kind", json::s("program")), ("program", J::N(i as i64))]);
         hist.add(&format!("docs={}", k));
         let code = match b.renders.get(0) {
             Some((_, Ok(s))) => s.clone(),
@@ -389,8 +423,13 @@ pub fn run(ctx: &mut Ctx, c13: bool) {
             ImplResult::Tree(t, _) => Some(t.clone()),
             _ => None,
         };
-        sh.push(b.term, b.descr);
-        progs.push(Prog { docs, code, root: root_struct, tree });
+        if !giant {
+            sh.push(b.term, b.descr);
+        } else {
+            // no Coq evaluation and no damaged copies for the giant program
+            docs.retain(|d| d.source);
+        }
+        progs.push(Prog { docs, code, root: root_struct, tree, giant });
     }
     ctx.shards.extend(sh.finish());
     ctx.add_chars();
@@ -547,6 +586,9 @@ pub fn run(ctx: &mut Ctx, c13: bool) {
         let mut n_cases = 0;
         let mut n_reject = 0;
         for (i, p) in progs.iter().enumerate() {
+            if p.giant {
+                continue;
+            }
             let ps = crate::outp::parse_output(&p.code).ok();
             for (j, dd) in p.docs.iter().enumerate() {
                 let variants: Vec<(char, bool)> = if c13 { vec![('D', false)] } else { vec![('D', true), ('E', false)] };
